@@ -1107,6 +1107,17 @@ class World:
                 a.aborted = "dropped"
                 _gc.collect()
                 self.fired["solver_dropped_solutions_kept"] += 1
+            elif kind == "narrow_box":
+                # the caller writes a narrower box into the very arrays it gave the Problem (they are its arrays); the solver
+                # was constructed for the old box and keeps it
+                pb = a.problem
+                for name, vals in (("lowerBoundOfFloatVariables", op["lower"]), ("upperBoundOfFloatVariables", op["upper"])):
+                    cur = getattr(pb, name)
+                    if isinstance(cur, np.ndarray) and cur.dtype == np.float64:
+                        cur[:] = vals
+                    else:
+                        setattr(pb, name, type(cur)(vals) if isinstance(cur, list) else vals)
+                self.fired["problem_bound_arrays_narrowed_in_place"] += 1
             elif kind == "clone":
                 # checkpoint / rollback: the user continues with a deep copy of the solver
                 import copy as _copy
